@@ -13,6 +13,8 @@ import NutsModel.C06.Framing
 import NutsProofs.Lemmas.C06Framing
 import NutsModel.C06.Shelf
 import NutsProofs.Lemmas.C06Shelf
+import NutsModel.C06.Create
+import NutsProofs.Lemmas.C06Create
 
 namespace Nuts.C06.Props
 open Nuts Nuts.C06
@@ -780,5 +782,87 @@ example : visitBetweenLC (buildClocks [⟨3, "", 0, "", true, "", 0, 0, [2], [],
 example : parseHashList (hashBytes 7 ++ [1, 2, 3]) = [hashBytes 7] ∧ parseHashListNonNil [1, 2, 3] = true ∧ parseHashList [1, 2, 3] = [] := by decide
 
 end StoreBytes
+
+
+/-! ### Deepening round 2026-09-28 — making a transaction (transaction.go `NewTransaction`, signing.go `Sign`, NutsModel/C06/Create.lean) -/
+
+section Creation
+open Nuts.C06.Create
+
+/-- `NewTransaction`, `ValidatePayloadType` and `Sign` as `NutsModel/C06/Create.lean` mirrors them, pinned statement by statement
+    (exact source text): the two refusals, the de-duplication loop, `version: currentVersion` (= 2), the pre-checks of `Sign`, the
+    header map (`cty`, `crit` = sigt, ver, prevs, lc; `sigt` = Unix seconds; `prevs` as hex; `pal` only when non-nil; `jwk` xor `kid`),
+    the payload = hex of the payload hash, and the final `ParseTransaction` -/
+theorem fact_create_bodies :
+    Facts.C06.body_NewTransaction =
+      ["if !ValidatePayloadType(payloadType)", "return nil, errInvalidPayloadType", "range prevs", "if prev.Empty()", "return nil, errInvalidPrevs", "deduplicated := make([]hash.SHA256Hash, 0)", "range prevs", "found := false", "range deduplicated", "if dd.Equals(prev)", "found = true", "break", "if !found", "deduplicated = append(deduplicated, prev)", "result := transaction{ payload: payload, payloadType: payloadType, version: currentVersion, pal: pal, lamportClock: lamportClock, }", "if len(deduplicated) > 0", "result.prevs = deduplicated", "return &result, nil"] ∧
+    Facts.C06.body_ValidatePayloadType = ["return strings.Contains(payloadType, \"/\")"] ∧
+    Facts.C06.body_Sign =
+      ["if signingTime.IsZero()", "return nil, errors.New(\"signing time is zero\")", "tx, ok := input.(Transaction)", "if ok && !tx.SigningTime().IsZero()", "return nil, errors.New(\"transaction is already signed\")", "var key jwk.Key", "var err error", "if d.key != nil", "key, err = jwk.FromRaw(d.key)", "if err != nil", "return nil, fmt.Errorf(errSigningTransactionFmt, err)", "_ = key.Set(jwk.KeyIDKey, d.kid)", "prevsAsString := make([]string, len(input.Previous()))", "range input.Previous()", "prevsAsString[i] = prev.String()", "normalizedMoment := signingTime.UTC()", "headerMap := map[string]interface{}{ jws.ContentTypeKey: input.PayloadType(), jws.CriticalKey: []string{signingTimeHeader, versionHeader, previousHeader, lamportClockHeader}, signingTimeHeader: normalizedMoment.Unix(), previousHeader: prevsAsString, versionHeader: input.Version(), lamportClockHeader: input.Clock(), }", "if input.PAL() != nil", "headerMap[palHeader] = input.PAL()", "if d.key != nil", "headerMap[jws.JWKKey] = key", "else", "headerMap[jws.KeyIDKey] = d.kid", "data, err := d.signer.SignJWS(ctx, []byte(input.PayloadHash().String()), headerMap, d.kid, false)", "if err != nil", "return nil, fmt.Errorf(errSigningTransactionFmt, err)", "signedTransaction, err := ParseTransaction([]byte(data))", "if err != nil", "return nil, fmt.Errorf(errSigningTransactionFmt, err)", "return signedTransaction, nil"] ∧
+    Facts.C06.currentVersion = currentVersion ∧
+    [Facts.C06.sigtHeader, Facts.C06.verHeader, Facts.C06.prevsHeader, Facts.C06.lcHeader] = critHeaders := by
+  exact ⟨rfl, rfl, rfl, rfl, rfl⟩
+
+/-- `NewTransaction`: what it accepts has a MIME-like payload type and no empty prev; the prevs it keeps are the given ones without
+    repetition (each once), and nothing else -/
+theorem new_transaction_sound {p : Nat} {pt : String} {prevs : List Nat} {pal : Option (List String)} {lc : Nat} {u : Unsigned}
+    (h : newTransaction p pt prevs pal lc = .ok u) :
+    containsSlash pt = true ∧ (∀ x ∈ prevs, x ≠ 0) ∧ u.prevs.Nodup ∧ (∀ x, x ∈ u.prevs ↔ x ∈ prevs) ∧
+    u.payload = p ∧ u.payloadType = pt ∧ u.clock = lc ∧ u.version = 2 ∧ u.pal = pal := by
+  obtain ⟨hc, hz, rfl⟩ := newTransaction_ok h
+  refine ⟨hc, hz, dedup_nodup (by simp), ?_, rfl, rfl, rfl, rfl, rfl⟩
+  intro x
+  simp [dedup_mem]
+
+/-- SIGN THEN PARSE (the last step of `Sign` is `ParseTransaction` of what was signed): for every input `NewTransaction` accepts,
+    the header `Sign` builds parses — under the source's own configuration — to a transaction with exactly the de-duplicated prevs,
+    the clock, payload hash, payload type, version 2 and signing time that went in -/
+theorem signed_transaction_parses_back (b64 : String → Bool) {p : Nat} {pt : String} {prevs : List Nat} {pal : Option (List String)}
+    {lc : Nat} {u : Unsigned} (hu : newTransaction p pt prevs pal lc = .ok u)
+    (sigt : Int) (hs0 : -(2 : Int) ^ 63 ≤ sigt) (hs1 : sigt < (2 : Int) ^ 63)
+    (alg : String) (ha : alg ∈ srcCfg.allowedAlgos) (key : KeyRef) (hk : ∀ id, key = .kid id → id ≠ "")
+    (ref : Nat) (hp : p < 16 ^ 64) (hpr : ∀ x ∈ prevs, x < 16 ^ 64) (hlc : lc < 2 ^ 32)
+    (hpal : ∀ l, pal = some l → ∀ s ∈ l, b64 s = true) :
+    parse srcCfg b64 (signHdr u sigt alg key ref true) =
+      .ok { ref := ref, alg := alg, payloadHash := p, cty := pt,
+            jwk := (match key with | .jwk => true | .kid _ => false),
+            kid := (match key with | .jwk => "" | .kid id => id),
+            sigt := sigt, ver := 2, prevs := dedup prevs [], pal := pal.getD [], clock := lc } :=
+  sign_then_parse b64 hu sigt hs0 hs1 alg ha key hk ref hp hpr hlc hpal
+
+/-- REQUEST → CREATED → SIGNED → PARSED → ADMITTED: on any state reachable state (`Inv`), the transaction `CreateTransaction` makes —
+    prevs = head + additional prevs and clock by `createPrevsClock`, built by `NewTransaction`, signed and re-parsed by `Sign` — is
+    accepted by `Add` on that state and stored, provided its signature verifies and the payload hashes to the declared hash.
+    (`created_tx_admissible` assumed the parsed prevs / clock; here they are derived from the header `Sign` builds.) -/
+theorem created_signed_parsed_admitted (b64 : String → Bool) (env : Env) (subs : List Sub) (s : St) (additional prevs : List Nat)
+    (clock p q : Nat) (pt : String) (pal : Option (List String)) (u : Unsigned)
+    (hi : Inv env s) (hnz : ∀ t ∈ s.txs, t.ref ≠ 0)
+    (hc : createPrevsClock s additional = .ok (prevs, clock))
+    (hu : newTransaction p pt ((if s.head ≠ 0 then [s.head] else []) ++ additional) pal clock = .ok u)
+    (sigt : Int) (hs0 : -(2 : Int) ^ 63 ≤ sigt) (hs1 : sigt < (2 : Int) ^ 63)
+    (alg : String) (ha : alg ∈ srcCfg.allowedAlgos) (key : KeyRef) (hk : ∀ id, key = .kid id → id ≠ "")
+    (ref : Nat) (hp : p < 16 ^ 64) (hpr : ∀ x ∈ (if s.head ≠ 0 then [s.head] else []) ++ additional, x < 16 ^ 64) (hlc : clock < 2 ^ 32)
+    (hpal : ∀ l, pal = some l → ∀ x ∈ l, b64 x = true)
+    (hfresh : ref ∉ refsOf s.txs) (hq : env.sha q = p) :
+    ∃ tx, parse srcCfg b64 (signHdr u sigt alg key ref true) = .ok tx ∧ tx.prevs = prevs ∧ tx.clock = clock ∧
+      (verifySig env tx = .ok () → (add env subs s tx (some q)).2 = .ok () ∧ (add env subs s tx (some q)).1.txs = tx :: s.txs) := by
+  refine ⟨_, sign_then_parse b64 hu sigt hs0 hs1 alg ha key hk ref hp hpr hlc hpal, (create_prevs_eq hc).symm, rfl, ?_⟩
+  intro hsig
+  exact created_tx_admissible env subs s additional prevs clock _ q hi hnz hc (create_prevs_eq hc).symm rfl hfresh hsig hq
+
+/-- `hash.ParseHex(h.String()) = h` for every 256-bit value (refs and payload hashes travel as hex in `prevs` and the JWS payload) -/
+theorem hex_round_trip {n : Nat} (h : n < 16 ^ 64) : parseHex (hex64 n) = some n := parseHex_hex64 h
+
+/-- non-vacuity: NewTransaction's three outcomes; Sign's pre-checks; a signed root and a signed child parse back -/
+example : newTransaction 7 "application/did+json" [5, 9, 5] none 3 = .ok ⟨7, "application/did+json", [5, 9], none, 3, 2⟩ := by decide
+example : newTransaction 7 "nomime" [5] none 3 = .err "invalid-payload-type" := by decide
+example : newTransaction 7 "a/b" [5, 0] none 3 = .err "invalid-prevs" := by decide
+example : signPrecheck true false = .err "signing-time-zero" ∧ signPrecheck false true = .err "already-signed" ∧ signPrecheck false false = .ok () := by decide
+example : (parse srcCfg (fun _ => true) (signHdr ⟨7, "a/b", [5, 9], some ["QUJD"], 3, 2⟩ 1600000000 "ES256" (.kid "did:nuts:a#k1") 77 true)).isOk = true := by
+  rw [sign_then_parse (fun _ => true) (p := 7) (pt := "a/b") (prevs := [5, 9]) (pal := some ["QUJD"]) (lc := 3) (by decide) 1600000000 (by decide) (by decide)
+    "ES256" (by decide) (.kid "did:nuts:a#k1") (by intro id h; cases h; decide) 77 (by decide) (by decide) (by decide) (by intro l h s hs; rfl)]
+  rfl
+
+end Creation
 
 end Nuts.C06.Props
